@@ -1194,6 +1194,16 @@ impl MDL {
             }
         }
 
+        // the index sections are padded to 16 bytes; make sure the file really ends where its last section does
+        for lod in self.model_data.lods.iter().take(self.lods.len()) {
+            let vertex_end = (lod.vertex_data_offset + lod.vertex_buffer_size) as usize;
+            let index_end = (lod.index_data_offset + lod.index_buffer_size) as usize;
+            let end = vertex_end.max(index_end);
+            if buffer.len() < end {
+                buffer.resize(end, 0);
+            }
+        }
+
         Some(buffer)
     }
 }
